@@ -59,10 +59,14 @@ enum Op {
     BatchDeleteNone(String),
     Flush(bool),
     Usage(Option<String>),
+    /// graceful stop + start on the same data dir; `true` = tenant "dax" is appended to the key file first
+    Restart(bool),
 }
 #[derive(Clone, Copy, Debug, PartialEq, Eq)]
 enum Who {
-    T(usize), // tenant number in the script (0 = A, 1 = B, 2 = C)
+    T(usize), // tenant number: 0 acme, 1 bolt, 2 cato, 3 dax (dax exists only after Restart(true))
+    Alt,      // tenant 0 through its SECOND enabled API key (key rotation)
+    Sys,      // not a client call (Restart)
     NoKey,
     WrongKey,
     Disabled,
@@ -78,9 +82,38 @@ struct Call {
 struct Script {
     nt: usize,
     calls: Vec<Call>,
+    /// generator's suggestion for (victim, removed tenant) of the with/without oracle
+    hint: Option<(usize, usize)>,
 }
 
 const TENANTS: [&str; 3] = ["acme", "bolt", "cato"]; // sorted => tenant index = position
+const NEW_TENANT: &str = "dax"; // appended to the key file by Restart(true): index = map.len() = 3
+const NAMES: [&str; 4] = ["acme", "bolt", "cato", "dax"];
+const KEY_ALT: u64 = 11;
+fn tenant_no(w: Who) -> Option<usize> {
+    match w {
+        Who::T(t) => Some(t),
+        Who::Alt => Some(0),
+        _ => None,
+    }
+}
+/// per call: is the caller's key valid at that point of the script?
+fn authed_flags(sc: &Script) -> Vec<bool> {
+    let mut dax = false;
+    sc.calls
+        .iter()
+        .map(|c| {
+            if let Op::Restart(true) = c.op {
+                dax = true;
+            }
+            match c.who {
+                Who::T(3) => dax,
+                Who::T(_) | Who::Alt => true,
+                _ => false,
+            }
+        })
+        .collect()
+}
 const DISABLED_TENANT: &str = "dis";
 const KEY_DISABLED: u64 = 10;
 const KEY_WRONG: u64 = 99;
@@ -103,6 +136,7 @@ fn opname(op: &Op) -> &'static str {
         Op::BatchDeleteNone(_) => "BatchDeleteNone",
         Op::Flush(_) => "FlushHotTier",
         Op::Usage(_) => "Usage",
+        Op::Restart(_) => "Restart",
     }
 }
 
@@ -198,12 +232,20 @@ fn gen_filter(r: &mut Rng, depth: u32, nt: usize) -> F {
         _ => leaf(r),
     }
 }
+/// out-of-range local ids aimed at other tenants' id ranges: 2^32, 2^32|l, (j<<32)|l, u64::MAX
+fn evil_id(r: &mut Rng) -> u64 {
+    let l = *r.pick(&[1u64, 2, 3, 6, 7]);
+    match r.below(8) {
+        0 => 1u64 << 32,
+        1 => u64::MAX,
+        2 => (1u64 << 32) - 1, // largest legal id
+        3 => 0,
+        _ => (r.range(1, 3) << 32) | l,
+    }
+}
 fn gen_id(r: &mut Rng) -> u64 {
-    match r.below(60) {
-        0 => 0,
-        1 => 1u64 << 32,
-        2 => u64::MAX,
-        3 => (1u64 << 32) - 1,
+    match r.below(12) {
+        0 => evil_id(r),
         _ => *r.pick(&[1u64, 2, 3, 1, 2, 3, 4, 5]),
     }
 }
@@ -214,7 +256,7 @@ fn gen_item(r: &mut Rng, nt: usize, ids: &[u64]) -> It {
         1 => vec![],
         _ => r.pick(&pool).clone(),
     };
-    let id = if r.chance(1, 25) { gen_id(r) } else { *r.pick(ids) };
+    let id = if r.chance(1, 8) { evil_id(r) } else { *r.pick(ids) };
     let spoof = r.chance(1, 3);
     It { id, v, meta: gen_meta(r, spoof, nt), ns: gen_ns(r) }
 }
@@ -234,7 +276,9 @@ fn gen_sq(r: &mut Rng, nt: usize, ns: &str) -> Sq {
 }
 
 fn gen_script(r: &mut Rng, idx: usize) -> Script {
-    let nt = if r.chance(1, 2) { 2 } else { 3 };
+    let restart_script = idx % 4 == 2;
+    let attack_script = idx % 6 == 1;
+    let nt = if restart_script || r.chance(1, 2) { 3 } else { 2 };
     let len = r.range(14, 22) as usize;
     let mut calls: Vec<Call> = vec![];
     let mut tr = Tracker::default();
@@ -266,16 +310,93 @@ fn gen_script(r: &mut Rng, idx: usize) -> Script {
             }
         }
     }
+    // directed: one tenant aims every RPC kind at the other tenants' id ranges with out-of-range local
+    // ids (j<<32)|l for colliding l; the closing census of every tenant shows whether anything moved
+    let mut attacker: Option<usize> = None;
+    if attack_script {
+        let a = r.below(nt as u64) as usize;
+        attacker = Some(a);
+        let pool = vec_pool();
+        for j in 0..3u64 {
+            let ids: Vec<u64> = [1u64, 2, 3].iter().map(|l| (j << 32) | l).chain([(1u64 << 32) | 7, 1u64 << 32, u64::MAX]).filter(|x| *x > u32::MAX as u64).collect();
+            let mk = |id: u64, r: &mut Rng| It { id, v: r.pick(&pool).clone(), meta: vec![("color".into(), "evil".into())], ns: String::new() };
+            let mut load: Vec<It> = ids.iter().map(|id| mk(*id, r)).collect();
+            load.push(mk(8, r));
+            tr.write(a, 8);
+            tr.cold_only = true;
+            calls.push(Call { who: Who::T(a), op: Op::BulkLoad(load), exact: true });
+            let mut ins: Vec<It> = ids.iter().map(|id| mk(*id, r)).collect();
+            ins.push(mk(5, r));
+            tr.write(a, 5);
+            tr.maybe_hot.insert((a, 5));
+            calls.push(Call { who: Who::T(a), op: Op::BulkInsert(ins), exact: true });
+            let id = *r.pick(&ids);
+            match r.below(3) {
+                0 => calls.push(Call { who: Who::T(a), op: Op::Insert(mk(id, r)), exact: true }),
+                1 => calls.push(Call { who: Who::T(a), op: Op::Update(id, vec![("color".into(), "evil".into())], false, String::new()), exact: true }),
+                _ => calls.push(Call { who: Who::T(a), op: Op::Query(id, true, String::new()), exact: true }),
+            }
+            tr.tombstones += 4;
+            calls.push(Call { who: Who::T(a), op: Op::BulkQuery(ids.clone(), true, String::new()), exact: true });
+            match r.below(2) {
+                0 => calls.push(Call { who: Who::T(a), op: Op::Delete(id, String::new()), exact: true }),
+                _ => calls.push(Call { who: Who::T(a), op: Op::BatchDeleteIds(ids.clone(), String::new()), exact: true }),
+            }
+        }
+    }
     let len = len + calls.len().min(6);
+    let restart_at = if restart_script { Some(calls.len() + (len - calls.len()) * 3 / 5) } else { None };
+    let mut dax = false;
+    let mut restarted = false;
     while calls.len() < len {
-        let who = match r.below(30) {
+        if let Some(at) = restart_at {
+            if !restarted && calls.len() >= at {
+                restarted = true;
+                let add = r.chance(4, 5);
+                calls.push(Call { who: Who::Sys, op: Op::Restart(add), exact: true });
+                tr.cold_only = true;
+                tr.maybe_hot.clear();
+                if add {
+                    // the brand-new tenant probes colliding local ids before writing anything
+                    dax = true;
+                    let d = Who::T(3);
+                    let pool = vec_pool();
+                    calls.push(Call { who: d, op: Op::BulkQuery(vec![1, 2, 3, 4, 5, 6, 7, 8], true, String::new()), exact: true });
+                    let sq = Sq { q: r.pick(&pool).clone(), k: 10, min_score: 0.0, ns: String::new(), incl: true, ef: 0, filter: None, legacy: vec![] };
+                    let ex = tr.exact(10);
+                    calls.push(Call { who: d, op: Op::Search(sq), exact: ex });
+                    calls.push(Call { who: d, op: Op::BulkQuery(vec![1, 2, 3, 4, 5, 6, 7, 8], true, String::new()), exact: true });
+                    calls.push(Call { who: d, op: Op::Query(*r.pick(&[1u64, 2, 3]), true, String::new()), exact: true });
+                    calls.push(Call { who: d, op: Op::Usage(None), exact: true });
+                    match r.below(4) {
+                        0 => calls.push(Call { who: d, op: Op::Delete(*r.pick(&[1u64, 2, 3]), String::new()), exact: true }),
+                        1 => calls.push(Call { who: d, op: Op::BatchDeleteIds(vec![1, 2, 3], String::new()), exact: true }),
+                        2 => calls.push(Call { who: d, op: Op::BatchDeleteFilter(F::Not(Some(Box::new(F::Exact("nokey".into(), "x".into())))), String::new()), exact: true }),
+                        _ => calls.push(Call { who: d, op: Op::Update(*r.pick(&[1u64, 2, 3]), vec![("color".into(), "dax".into())], true, String::new()), exact: true }),
+                    }
+                    tr.tombstones += 8;
+                    for t in 0..nt {
+                        calls.push(Call { who: Who::T(t), op: Op::BulkQuery(vec![1, 2, 3, 4, 5, 6, 7, 8], true, String::new()), exact: true });
+                    }
+                }
+                continue;
+            }
+        }
+        let who = match r.below(36) {
             0 => Who::NoKey,
             1 => Who::WrongKey,
             2 => Who::Disabled,
+            3 | 4 => Who::Alt,
+            5 => Who::T(3),
+            6..=9 if dax => Who::T(3),
             _ => Who::T(r.below(nt as u64) as usize),
         };
-        let t = if let Who::T(t) = who { t } else { 0 };
-        let authed = matches!(who, Who::T(_));
+        let t = tenant_no(who).unwrap_or(0);
+        let authed = match who {
+            Who::T(3) => dax,
+            Who::T(_) | Who::Alt => true,
+            _ => false,
+        };
         let op = match r.below(100) {
             0..=21 => {
                 let it = gen_item(r, nt, &POOL_IDS);
@@ -372,9 +493,9 @@ fn gen_script(r: &mut Rng, idx: usize) -> Script {
             Op::BulkSearch(v) => v.iter().all(|s| tr.exact(s.k)),
             _ => true,
         };
-        let census = match (&op, who) {
-            (Op::Search(s), Who::T(_)) => Some(s.ns.clone()),
-            (Op::BulkSearch(v), Who::T(_)) => v.first().map(|s| s.ns.clone()),
+        let census = match (&op, authed) {
+            (Op::Search(s), true) => Some(s.ns.clone()),
+            (Op::BulkSearch(v), true) => v.first().map(|s| s.ns.clone()),
             _ => None,
         };
         calls.push(Call { who, op, exact });
@@ -387,11 +508,22 @@ fn gen_script(r: &mut Rng, idx: usize) -> Script {
     if r.chance(1, 3) {
         calls.push(Call { who: Who::T(0), op: Op::Flush(true), exact: true });
     }
-    for t in 0..nt {
+    let mut closers: Vec<usize> = (0..nt).collect();
+    if dax {
+        closers.push(3);
+    }
+    for t in closers {
         calls.push(Call { who: Who::T(t), op: Op::BulkQuery(vec![1, 2, 3, 4, 5, 6, 7, 8], true, String::new()), exact: true });
         calls.push(Call { who: Who::T(t), op: Op::Usage(None), exact: true });
     }
-    Script { nt, calls }
+    let hint = if dax {
+        Some((if idx % 8 == 2 { 1 } else { 2 }, 3))
+    } else if attack_script {
+        attacker.map(|a| ((a + 1) % nt, a))
+    } else {
+        None
+    };
+    Script { nt, calls, hint }
 }
 
 // ------------------------------------------------------------------------------------------ JSON (replays)
@@ -462,6 +594,8 @@ fn ids_from(v: &Value) -> Vec<u64> {
 fn call_json(c: &Call) -> Value {
     let who = match c.who {
         Who::T(t) => json!(t),
+        Who::Alt => json!("alt"),
+        Who::Sys => json!("sys"),
         Who::NoKey => json!("nokey"),
         Who::WrongKey => json!("wrongkey"),
         Who::Disabled => json!("disabled"),
@@ -481,6 +615,7 @@ fn call_json(c: &Call) -> Value {
         Op::BatchDeleteNone(ns) => json!(["BatchDeleteNone", ns]),
         Op::Flush(f) => json!(["Flush", f]),
         Op::Usage(s) => json!(["Usage", s]),
+        Op::Restart(add) => json!(["Restart", add]),
     };
     json!({"who": who, "op": op, "exact": c.exact})
 }
@@ -488,6 +623,8 @@ fn call_from(v: &Value) -> Call {
     let who = match &v["who"] {
         Value::Number(n) => Who::T(n.as_u64().unwrap_or(0) as usize),
         Value::String(s) if s == "nokey" => Who::NoKey,
+        Value::String(s) if s == "alt" => Who::Alt,
+        Value::String(s) if s == "sys" => Who::Sys,
         Value::String(s) if s == "wrongkey" => Who::WrongKey,
         _ => Who::Disabled,
     };
@@ -507,6 +644,7 @@ fn call_from(v: &Value) -> Call {
         "BatchDeleteFilter" => Op::BatchDeleteFilter(f_from(&o[1]), st(&o[2])),
         "BatchDeleteNone" => Op::BatchDeleteNone(st(&o[1])),
         "Flush" => Op::Flush(o[1].as_bool().unwrap_or(false)),
+        "Restart" => Op::Restart(o[1].as_bool().unwrap_or(false)),
         _ => Op::Usage(if o[1].is_null() { None } else { Some(st(&o[1])) }),
     };
     Call { who, op, exact: v["exact"].as_bool().unwrap_or(false) }
@@ -515,7 +653,7 @@ fn script_json(s: &Script) -> Value {
     json!({"nt": s.nt, "calls": s.calls.iter().map(call_json).collect::<Vec<_>>()})
 }
 fn script_from(v: &Value) -> Script {
-    Script { nt: v["nt"].as_u64().unwrap_or(2) as usize, calls: v["calls"].as_array().map(|a| a.iter().map(call_from).collect()).unwrap_or_default() }
+    Script { hint: None, nt: v["nt"].as_u64().unwrap_or(2) as usize, calls: v["calls"].as_array().map(|a| a.iter().map(call_from).collect()).unwrap_or_default() }
 }
 
 // ------------------------------------------------------------------------------------------ running
@@ -532,6 +670,7 @@ enum Obs {
     BatchDelete(u64),
     Flush(u64),
     Usage(Vec<UsageRow>),
+    Restarted(bool),
     Transport(String),
 }
 fn f32s(v: &[i32]) -> Vec<f32> {
@@ -571,7 +710,8 @@ fn errname(e: &RpcErr) -> String {
 
 fn server_opts(name: &str) -> ServerOpts {
     let mut o = ServerOpts::new("C10", name);
-    o.tenants = TENANTS.iter().map(|t| TenantSpec::new(t)).collect();
+    // acme has TWO enabled keys (key rotation) and sorts before the other tenants
+    o.tenants = vec![TenantSpec::new("acme"), TenantSpec::new("acme").key(&make_key("acme", 1)), TenantSpec::new("bolt"), TenantSpec::new("cato")];
     o.tenants.push(TenantSpec::new(DISABLED_TENANT).disabled());
     o
 }
@@ -579,14 +719,17 @@ fn server_opts(name: &str) -> ServerOpts {
 fn run_script(name: &str, sc: &Script) -> Result<(Vec<Obs>, f64), String> {
     let mut s = Server::start(server_opts(name))?;
     let startup = s.startup.as_secs_f64();
-    let keys: Vec<String> = TENANTS.iter().map(|t| s.key(t)).collect();
+    let mut keys: Vec<String> = TENANTS.iter().map(|t| s.key(t)).collect();
+    keys.push(make_key(NEW_TENANT, 0)); // not in the key file until Restart(true)
+    let kalt = make_key("acme", 1);
     let kdis = s.key(DISABLED_TENANT);
     let kwrong = make_key("acme", 7); // well-formed, right tenant prefix, wrong secret
     let mut out = vec![];
     for c in &sc.calls {
         let key: Option<&str> = match c.who {
             Who::T(t) => Some(keys[t].as_str()),
-            Who::NoKey => None,
+            Who::Alt => Some(kalt.as_str()),
+            Who::Sys | Who::NoKey => None,
             Who::WrongKey => Some(kwrong.as_str()),
             Who::Disabled => Some(kdis.as_str()),
         };
@@ -643,6 +786,16 @@ fn run_script(name: &str, sc: &Script) -> Result<(Vec<Obs>, f64), String> {
                 Ok(r) => Obs::Flush(r.documents_flushed),
                 Err(e) => Obs::Err(errname(&e)),
             },
+            Op::Restart(add) => {
+                let clean = s.stop_graceful().unwrap_or(false);
+                if *add && s.keys_of(NEW_TENANT).is_empty() {
+                    s.add_tenant(TenantSpec::new(NEW_TENANT));
+                }
+                match s.restart() {
+                    Ok(()) => Obs::Restarted(clean),
+                    Err(e) => Obs::Transport(format!("restart failed: {}", e)),
+                }
+            }
             Op::Usage(scope) => match s.usage(key, scope.as_deref()) {
                 Ok(u) if u.status == 200 => Obs::Usage(u.tenants),
                 Ok(u) => Obs::Err(format!("Http{}", u.status)),
@@ -722,7 +875,8 @@ fn csq(s: &Sq) -> String {
 fn ccall(c: &Call) -> String {
     let key = match c.who {
         Who::T(t) => format!("(Some {})", cn(t as u64 + 1)),
-        Who::NoKey => "None".into(),
+        Who::Alt => format!("(Some {})", cn(KEY_ALT)),
+        Who::Sys | Who::NoKey => "None".into(),
         Who::WrongKey => format!("(Some {})", cn(KEY_WRONG)),
         Who::Disabled => format!("(Some {})", cn(KEY_DISABLED)),
     };
@@ -743,6 +897,7 @@ fn ccall(c: &Call) -> String {
         Op::Flush(f) => format!("RFlush {}", cb(*f)),
         Op::Usage(None) => "RUsage None".into(),
         Op::Usage(Some(s)) => format!("RUsage (Some {})", cs(s)),
+        Op::Restart(_) => "RFlush false".into(), // never emitted: restarts separate the phases
     };
     format!("mkCall {} ({})", key, op)
 }
@@ -778,7 +933,7 @@ fn chit(h: &SearchHit) -> String {
     format!("(mkHit {} {} {} {})", cn(h.doc_id), cz(h.score_bits as i64), cvec(&eighths(&h.embedding)), cmeta(&h.metadata))
 }
 fn tenant_idx(name: &str) -> u64 {
-    TENANTS.iter().position(|t| *t == name).map(|p| p as u64).unwrap_or(777)
+    NAMES.iter().position(|t| *t == name).map(|p| p as u64).unwrap_or(777)
 }
 /// None = the observation has no Gallina form (unexpected status / transport error): reported as bad.
 fn cobs(o: &Obs, exact: bool) -> Option<String> {
@@ -809,7 +964,7 @@ fn cobs(o: &Obs, exact: bool) -> Option<String> {
                 .collect::<Vec<_>>()
                 .join("; ")
         ),
-        Obs::Transport(_) => return None,
+        Obs::Restarted(_) | Obs::Transport(_) => return None,
     })
 }
 fn score_bits(d64: i64) -> u32 {
@@ -828,8 +983,11 @@ fn preamble() -> String {
     format!(
         "From Coq Require Import List NArith ZArith Bool String.\nFrom Kyro Require Import Model.Server.\nImport ListNotations.\nOpen Scope N_scope.\n\
          Definition score_tab : list (Z * Z) := [{}].\nDefinition sc := ztab score_tab.\n\
-         Definition cfg : config := mkCfg [(1, mkKey 0 (s2l \"acme\") true false 1000000); (2, mkKey 1 (s2l \"bolt\") true false 1000000); (3, mkKey 2 (s2l \"cato\") true false 1000000); ({}, mkKey 3 (s2l \"dis\") false false 1000000)] 2.\n",
-        t, KEY_DISABLED
+         Definition specs1 : list keyspec := [mkSpec 1 (s2l \"acme\") true false 1000000; mkSpec {alt} (s2l \"acme\") true false 1000000; mkSpec 2 (s2l \"bolt\") true false 1000000; mkSpec 3 (s2l \"cato\") true false 1000000; mkSpec {dis} (s2l \"dis\") false false 1000000].\n\
+         Definition specs2 : list keyspec := specs1 ++ [mkSpec 4 (s2l \"dax\") true false 1000000].\n\
+         Definition tm1 : tmap := tmap_create (enabled_tids specs1).\nDefinition tm2 : tmap := tmap_ensure_all tm1 (enabled_tids specs2).\n\
+         Definition cfg1 : config := mk_config tm1 specs1 2.\nDefinition cfg2 : config := mk_config tm2 specs2 2.\n",
+        t, alt = KEY_ALT, dis = KEY_DISABLED
     )
 }
 
@@ -946,18 +1104,44 @@ struct Outcome {
 
 fn evaluate(id: usize, sc: &Script, a: usize, b: usize, tag: &str) -> Result<Outcome, String> {
     let (full, st1) = run_script(&format!("{}{}-full", tag, id), sc)?;
-    let reduced_script = Script { nt: sc.nt, calls: sc.calls.iter().filter(|c| c.who != Who::T(b)).cloned().collect() };
+    let reduced_script = Script { hint: None, nt: sc.nt, calls: sc.calls.iter().filter(|c| tenant_no(c.who) != Some(b)).cloned().collect() };
     let (reduced, st2) = run_script(&format!("{}{}-reduced", tag, id), &reduced_script)?;
     let mut failures = vec![];
     let mut known = vec![];
     let case = |why: String, idx: usize| json!({"id": id, "why": why, "call_index": idx, "victim": a, "removed": b, "case": script_json(sc)});
     // --- oracle 1: refusals, reserved keys never returned, containment against the census
+    let authed = authed_flags(sc);
+    // oracle 3 bookkeeping: tenants that have not written anything yet must see nothing at all
+    let mut wrote = [false; 4];
     for (i, (c, o)) in sc.calls.iter().zip(full.iter()).enumerate() {
         if let Obs::Transport(e) = o {
             failures.push(case(format!("transport error: {}", e), i));
             continue;
         }
-        if !matches!(c.who, Who::T(_)) {
+        if c.who == Who::Sys {
+            continue;
+        }
+        if let (Some(t), true) = (tenant_no(c.who), authed[i]) {
+            if !wrote[t] {
+                let sees = match o {
+                    Obs::Query(q) => q.found,
+                    Obs::BulkQuery(rs, tf, _) => *tf > 0 || rs.iter().any(|q| q.found),
+                    Obs::Search(s) => !s.hits.is_empty() || s.total_found > 0,
+                    Obs::BulkSearch(rs) => rs.iter().any(|r| r.as_ref().map(|s| !s.hits.is_empty() || s.total_found > 0).unwrap_or(false)),
+                    Obs::Existed(b) => *b,
+                    Obs::BatchDelete(n) => *n > 0,
+                    Obs::Usage(rows) => rows.iter().any(|r| r.vector_count > 0 || r.insert_count > 0 || r.delete_count > 0),
+                    _ => false,
+                };
+                if sees {
+                    failures.push(case(format!("tenant {} has written nothing yet but {} shows it existing documents: {:?}", NAMES[t], opname(&c.op), o), i));
+                }
+            }
+            if matches!(c.op, Op::Insert(_) | Op::BulkInsert(_) | Op::BulkLoad(_)) {
+                wrote[t] = true;
+            }
+        }
+        if !authed[i] {
             let want = if matches!(c.op, Op::Usage(_)) { "Http401" } else { "Unauthenticated" };
             if *o != Obs::Err(want.into()) {
                 failures.push(case(format!("{} with {:?} was not refused: {:?}", opname(&c.op), c.who, o), i));
@@ -970,9 +1154,9 @@ fn evaluate(id: usize, sc: &Script, a: usize, b: usize, tag: &str) -> Result<Out
             }
         }
         if let Obs::Usage(rows) = o {
-            let Who::T(t) = c.who else { continue };
-            if rows.iter().any(|r| r.tenant_id != TENANTS[t]) {
-                failures.push(case(format!("/usage of {} lists other tenants: {:?}", TENANTS[t], rows), i));
+            let Some(t) = tenant_no(c.who) else { continue };
+            if rows.iter().any(|r| r.tenant_id != NAMES[t]) {
+                failures.push(case(format!("/usage of {} lists other tenants: {:?}", NAMES[t], rows), i));
             }
         }
         match (&c.op, o) {
@@ -997,8 +1181,8 @@ fn evaluate(id: usize, sc: &Script, a: usize, b: usize, tag: &str) -> Result<Out
         }
     }
     // --- oracle 2: noninterference — A's answers with and without B's calls
-    let a_full: Vec<(usize, &Call, &Obs)> = sc.calls.iter().zip(full.iter()).enumerate().filter(|(_, (c, _))| c.who == Who::T(a)).map(|(i, (c, o))| (i, c, o)).collect();
-    let a_red: Vec<&Obs> = reduced_script.calls.iter().zip(reduced.iter()).filter(|(c, _)| c.who == Who::T(a)).map(|(_, o)| o).collect();
+    let a_full: Vec<(usize, &Call, &Obs)> = sc.calls.iter().zip(full.iter()).enumerate().filter(|(_, (c, _))| tenant_no(c.who) == Some(a)).map(|(i, (c, o))| (i, c, o)).collect();
+    let a_red: Vec<&Obs> = reduced_script.calls.iter().zip(reduced.iter()).filter(|(c, _)| tenant_no(c.who) == Some(a)).map(|(_, o)| o).collect();
     for ((i, c, of), or) in a_full.iter().zip(a_red.iter()) {
         let (x, y) = (strip_diag(of), strip_diag(or));
         if x == y {
@@ -1013,13 +1197,13 @@ fn evaluate(id: usize, sc: &Script, a: usize, b: usize, tag: &str) -> Result<Out
             // global candidate cut includes tenant B's documents
             known.push(json!({"class": "C10-search-count-depends-on-other-tenants", "id": id, "call_index": i,
                 "with_other_tenant": search_summary(&x), "without_other_tenant": search_summary(&y),
-                "victim": TENANTS[a], "removed": TENANTS[b], "case": script_json(sc)}));
+                "victim": NAMES[a], "removed": NAMES[b], "case": script_json(sc)}));
         } else if let (Obs::Flush(n1), Obs::Flush(n2)) = (&x, &y) {
             known.push(json!({"class": "C10-flush-count-is-process-wide", "id": id, "call_index": i,
                 "with_other_tenant": n1, "without_other_tenant": n2,
-                "victim": TENANTS[a], "removed": TENANTS[b], "case": script_json(sc)}));
+                "victim": NAMES[a], "removed": NAMES[b], "case": script_json(sc)}));
         } else {
-            failures.push(case(format!("{} answer of tenant {} depends on tenant {}'s calls: {:?} vs {:?}", opname(&c.op), TENANTS[a], TENANTS[b], x, y), *i));
+            failures.push(case(format!("{} answer of tenant {} depends on tenant {}'s calls: {:?} vs {:?}", opname(&c.op), NAMES[a], NAMES[b], x, y), *i));
         }
     }
     if a_full.len() != a_red.len() {
@@ -1030,17 +1214,31 @@ fn evaluate(id: usize, sc: &Script, a: usize, b: usize, tag: &str) -> Result<Out
 
 fn coq_case(cid: usize, sc: &Script, obs: &[Obs]) -> (String, Vec<usize>) {
     let mut unprintable = vec![];
-    let mut parts = vec![];
+    // phases separated by Restart ops: (config name, index of first call, entries)
+    let mut phases: Vec<(&'static str, usize, Vec<String>)> = vec![("cfg1", 0, vec![])];
+    let mut cfg_now = "cfg1";
     for (i, (c, o)) in sc.calls.iter().zip(obs.iter()).enumerate() {
-        match cobs(o, c.exact) {
-            Some(t) => parts.push(format!("({}, {})", ccall(c), t)),
+        if let Op::Restart(add) = c.op {
+            if add {
+                cfg_now = "cfg2";
+            }
+            if let Obs::Transport(_) = o {
+                unprintable.push(i);
+            }
+            phases.push((cfg_now, i + 1, vec![]));
+            continue;
+        }
+        let entry = match cobs(o, c.exact) {
+            Some(t) => format!("({}, {})", ccall(c), t),
             None => {
                 unprintable.push(i);
-                parts.push(format!("({}, ObsResp (Err Http400))", ccall(c)));
+                format!("({}, ObsResp (Err Http400))", ccall(c))
             }
-        }
+        };
+        phases.last_mut().unwrap().2.push(entry);
     }
-    (format!("({}, [\n   {}])", cn(cid as u64), parts.join(";\n   ")), unprintable)
+    let ph: Vec<String> = phases.iter().map(|(cfg, i0, es)| format!("({}, {}, [\n   {}])", cfg, cn(*i0 as u64), es.join(";\n   "))).collect();
+    (format!("({}, [{}])", cn(cid as u64), ph.join(";\n  ")), unprintable)
 }
 
 fn main() {
@@ -1099,9 +1297,10 @@ fn main() {
             let mut r = rng.fork(k as u64);
             let sc = gen_script(&mut r, k);
             // victim / removed tenant: mostly A=0,B=1; sometimes the other way round or the third tenant
-            let (a, b) = match k % 4 {
-                1 => (1, 0),
-                3 if sc.nt == 3 => (0, 2),
+            let (a, b) = match (sc.hint, k % 4) {
+                (Some(h), _) => h,
+                (None, 1) => (1, 0),
+                (None, 3) if sc.nt == 3 => (0, 2),
                 _ => (0, 1),
             };
             scripts.push((sc, a, b));
@@ -1164,8 +1363,14 @@ fn main() {
         startup_sum += o.startup;
         for (c, ob) in o.script.calls.iter().zip(o.full.iter()) {
             *hist.entry(opname(&c.op).to_string()).or_default() += 1;
-            if !matches!(c.who, Who::T(_)) {
+            if tenant_no(c.who).is_none() && c.who != Who::Sys {
                 *hist.entry("unauthenticated-call".into()).or_default() += 1;
+            }
+            if c.who == Who::Alt {
+                *hist.entry("call-through-second-key-of-tenant".into()).or_default() += 1;
+            }
+            if let Op::BulkLoad(v) | Op::BulkInsert(v) = &c.op {
+                *hist.entry("bulk-items-with-out-of-range-id".into()).or_default() += v.iter().filter(|i| i.id > u32::MAX as u64).count() as u64;
             }
             let cls = match ob {
                 Obs::Err(e) => format!("err:{}", e),
@@ -1240,10 +1445,10 @@ fn main() {
     let pre = preamble();
     for (k, chunk) in case_texts.chunks(per).enumerate() {
         let text = format!(
-            "{}Definition cases : list (N * list (call * obs)) := [\n  {}\n].\n\
-             Definition bad : list (N * N) := flat_map (fun c => map (fun i => (fst c, i)) (check_script dec_str sc cfg (snd c))) cases.\n\
+            "{}Definition cases : list (N * list (config * N * list (call * obs))) := [\n  {}\n].\n\
+             Definition bad : list (N * N) := flat_map (fun c => map (fun i => (fst c, i)) (check_phases dec_str sc (snd c))) cases.\n\
              Goal True. idtac \"@@bad\". Abort.\nEval vm_compute in bad.\nGoal True. idtac \"@@count\". Abort.\nEval vm_compute in (N.of_nat (List.length cases)).\n\
-             Goal True. idtac \"@@calls\". Abort.\nEval vm_compute in (N.of_nat (List.length (flat_map (fun c => snd c) cases))).\nGoal True. idtac \"@@end\". Abort.\n",
+             Goal True. idtac \"@@calls\". Abort.\nEval vm_compute in (N.of_nat (List.length (flat_map (fun c => flat_map (fun p => snd p) (snd c)) cases))).\nGoal True. idtac \"@@end\". Abort.\n",
             pre,
             chunk.join(";\n  ")
         );
